@@ -31,6 +31,10 @@ structure Defects where
   /-- FilterToIndexScan uses an index although an unbounded indexed column may be NULL (rows with NULL keys have no
       entry; repaired by 47df9d4) -/
   indexScanIgnoresNullable : Bool := false
+  /-- PhysicalProperties::satisfies compares the required and the delivered ordering position by position as far as
+      *both* go (`zip`): an input that delivers only a proper prefix of the required ordering passes and gets no Sort
+      enforcer (seeded change; the shipped code asks for at least as many delivered keys as required ones) -/
+  orderingPrefixEitherWay : Bool := false
   deriving Repr, Inhabited
 
 abbrev Defects.none : Defects := {}
@@ -94,6 +98,10 @@ def mapCols (f : Nat → Nat) : Expr → Expr
   | .isNull n e => .isNull n (mapCols f e)
   | .between n e lo hi => .between n (mapCols f e) (mapCols f lo) (mapCols f hi)
   | .inList n e xs => .inList n (mapCols f e) (mapColsList f xs)
+  | .caseWhen parts => .caseWhen (mapColsList f parts)
+  | .caseOf x parts => .caseOf (mapCols f x) (mapColsList f parts)
+  | .strFn g e => .strFn g (mapCols f e)
+  | .concat a b => .concat (mapCols f a) (mapCols f b)
 def mapColsList (f : Nat → Nat) : List Expr → List Expr
   | [] => []
   | e :: es => mapCols f e :: mapColsList f es
@@ -115,6 +123,10 @@ def cols : Expr → List Nat
   | .isNull _ e => cols e
   | .between _ e lo hi => cols e ++ (cols lo ++ cols hi)
   | .inList _ e xs => cols e ++ colsList xs
+  | .caseWhen parts => colsList parts
+  | .caseOf x parts => cols x ++ colsList parts
+  | .strFn _ e => cols e
+  | .concat a b => cols a ++ cols b
 def colsList : List Expr → List Nat
   | [] => []
   | e :: es => cols e ++ colsList es
@@ -282,6 +294,10 @@ def Plan.wellScoped (st : Store) : Plan → Bool
 def fromPlan : From → Plan
   | .table t => .scan t
   | .join k l r on => .join k on (fromPlan l) (fromPlan r)
+  | .derived f w items =>
+    .project items (match w with
+      | none => fromPlan f
+      | some e => .filter e (fromPlan f))
 
 /-- FROM → WHERE → projection -/
 def boundPlan (q : Select) : Plan :=
@@ -575,5 +591,91 @@ def choose (s : Stats) : List Plan → Option Plan
   | c :: cs => match choose s cs with
     | none => some c
     | some b => if cost s b < cost s c then some b else some c
+
+/-! ## Orderings and the sort enforcer
+
+`PhysicalProperties::satisfies` (sql/planner/prop.rs) decides, while `CascadesOptimizer::extract_plan`
+(sql/planner/mod.rs) assembles the chosen plan, whether the input of an operator that requires an ordering (a merge
+join requires its inputs ordered by its key columns) already delivers it; if not, a Sort on the required keys is put in
+between.  Only Sort and MergeJoin declare an ordering (a merge join: its left key columns). -/
+
+/-- one key of a required ordering: a column of the input and a direction -/
+structure OrdKey where
+  col : Nat
+  asc : Bool
+  deriving DecidableEq, Repr, Inhabited
+
+/-- one key of a delivered ordering: a plain column, or `none` for any other expression (it matches no required key) -/
+abbrev DKey := Option OrdKey
+
+/-- every required key is there, at its position -/
+def leads : List OrdKey → List DKey → Bool
+  | [], _ => true
+  | _ :: _, [] => false
+  | r :: rs, d :: ds => d == some r && leads rs ds
+
+/-- the `zip` reading: positions are compared as far as both lists go -/
+def leadsZip : List OrdKey → List DKey → Bool
+  | [], _ => true
+  | _ :: _, [] => true
+  | r :: rs, d :: ds => d == some r && leadsZip rs ds
+
+/-- PhysicalProperties::satisfies -/
+def satisfies (D : Defects) (delivered : List DKey) (required : List OrdKey) : Bool :=
+  if required.isEmpty then true
+  else if D.orderingPrefixEitherWay then !delivered.isEmpty && leadsZip required delivered
+  else leads required delivered
+
+/-- the key vector of a row under an ordering (a column the row does not have counts as NULL) -/
+def keysOf (ks : List OrdKey) (r : Row) : List Value := ks.map (fun k => r.getD k.col .null)
+
+/-- `a` may stand before `b` in an input ordered by `ks` (`nf`: NULLs first, as OrderingSpec::new sets for ascending keys) -/
+def leOn (nf : Bool) (ks : List OrdKey) (a b : Row) : Bool :=
+  cmpKeys nf (ks.map (·.asc)) (keysOf ks a) (keysOf ks b) != .gt
+
+def SortedOn (nf : Bool) (ks : List OrdKey) (rows : List Row) : Prop :=
+  rows.Pairwise (fun a b => leOn nf ks a b = true)
+
+/-- the same as a computation -/
+def sortedOnB (nf : Bool) (ks : List OrdKey) : List Row → Bool
+  | [] => true
+  | a :: rest => rest.all (fun b => leOn nf ks a b) && sortedOnB nf ks rest
+
+/-- the Sort operator -/
+def sortOn (nf : Bool) (ks : List OrdKey) (rows : List Row) : List Row := sortBy (leOn nf ks) rows
+
+/-- what extract_plan hands to an operator that requires `required` of an input delivering `delivered` -/
+def enforce (D : Defects) (nf : Bool) (delivered : List DKey) (required : List OrdKey) (rows : List Row) : List Row :=
+  if satisfies D delivered required then rows else sortOn nf required rows
+
+/-- the ordering the enforced input delivers -/
+def enforcedOrdering (D : Defects) (delivered : List DKey) (required : List OrdKey) : List DKey :=
+  if satisfies D delivered required then delivered else required.map some
+
+/-- Inner merge join on the key columns `kl` / `kr` (ascending, NULLs first; a NULL key pairs with nothing): both
+    inputs are read once, front to back — smaller key on the left: next left row; on the right: next right row;
+    equal keys: the left row is paired with the run of right rows that carry this key, then the next left row.
+    (`fuel` ≥ length of both inputs together.) -/
+def mergeInner (kl kr : List Nat) : Nat → List Row → List Row → List Row
+  | 0, _, _ => []
+  | _, [], _ => []
+  | _, _, [] => []
+  | fuel + 1, a :: l, b :: r =>
+    let ka := kl.map (fun c => a.getD c .null)
+    let kb := kr.map (fun c => b.getD c .null)
+    if ka.any (· == .null) then mergeInner kl kr fuel l (b :: r)
+    else if kb.any (· == .null) then mergeInner kl kr fuel (a :: l) r
+    else match cmpKeys true (kl.map (fun _ => true)) ka kb with
+      | .lt => mergeInner kl kr fuel l (b :: r)
+      | .gt => mergeInner kl kr fuel (a :: l) r
+      | .eq =>
+        ((b :: r).takeWhile (fun b' => kr.map (fun c => b'.getD c .null) == kb)).map (fun b' => a ++ b')
+          ++ mergeInner kl kr fuel l (b :: r)
+
+/-- the nested-loop reading of the same join -/
+def nlInner (kl kr : List Nat) (l r : List Row) : List Row :=
+  l.flatMap (fun a => (r.filter (fun b =>
+    let ka := kl.map (fun c => a.getD c .null)
+    !ka.any (· == .null) && ka == kr.map (fun c => b.getD c .null))).map (fun b => a ++ b))
 
 end AxVerif.Plan
